@@ -8,6 +8,9 @@
 (*   CancelCall/Ret(h)     around the context's cancel()    silent: Cancel   *)
 (*   SendCall/Ret(c, s, n) around Send() of sender s; n = the seqno the      *)
 (*                         message carried   silent: Send, StartDeliver, ... *)
+(*                         (the harness writes n into the SendCall record    *)
+(*                         once it is known: a prophecy that only spares TLC *)
+(*                         guessing the order of concurrent nextSeqno calls) *)
 (*   DeliverCall/Ret(c, m) around a synchronous re-publication of message m  *)
 (*                         (what the RetransmitFn does)                      *)
 (*   Tick                  before a retransmission tick is fed: every        *)
@@ -108,12 +111,12 @@ TCancelRet ==
 ---- \* senders
 TSendCall ==
     /\ IsEvent("SendCall")
-    /\ sc' = sc \cup {[c |-> Ev.c, s |-> Ev.s, m |-> NoMsg, st |-> "called"]}
+    /\ sc' = sc \cup {[c |-> Ev.c, s |-> Ev.s, m |-> [s |-> Ev.s, n |-> Ev.n], st |-> "called"]}
     /\ UNCHANGED <<vars, chkOn, regP, canP>>
 \* nextSeqno inside Send
 SAlloc(p) ==
-    /\ p \in sc /\ p.st = "called" /\ Send(p.s)
-    /\ sc' = (sc \ {p}) \cup {[p EXCEPT !.m = [s |-> p.s, n |-> counter[p.s] + 1], !.st = "alloc"]}
+    /\ p \in sc /\ p.st = "called" /\ p.m.n = counter[p.s] + 1 /\ Send(p.s)
+    /\ sc' = (sc \ {p}) \cup {[p EXCEPT !.st = "alloc"]}
     /\ UNCHANGED <<l, chkOn, regP, canP>>
 \* the publication made by the call itself
 SStart(p) ==
@@ -199,7 +202,4 @@ TSpec == TInit /\ [][TNext]_tvars
 \* once some path has consumed the whole trace it is explained: stop TLC (no error trace)
 Hwm == HwmConstraint(l) /\ (l > Len(Trace) => TLCSet("exit", TRUE))
 Accepted == HwmAccepted
-\* Checked as an "invariant": its violation means the whole trace was consumed
-\* on some path, so TLC can stop at the first complete explanation.
-NotDone == l <= Len(Trace)
 =============================================================================
